@@ -195,6 +195,7 @@ class UMFPACKSolver(SuiteSparseSolver):
             umfpack.linsolve(A, b)
         except ArithmeticError:
             logger.error('Singular matrix. Case is not solvable')
+            return np.ravel(matrix(np.nan, b.size, 'd'))
         return np.ravel(b)
 
 
@@ -220,4 +221,5 @@ class KLUSolver(SuiteSparseSolver):
             klu.linsolve(A, b)
         except ArithmeticError:
             logger.error('Singular matrix. Case is not solvable')
+            return np.ravel(matrix(np.nan, b.size, 'd'))
         return np.ravel(b)
